@@ -69,11 +69,11 @@ class C07Check(Check):
         "without any available annotator existed. Distinct by (subject, argument representation, fault kinds, probes)."
     )
     fault_kinds = ["annotator_offline", "pair_unavailable", "no_answer"]
-    probes_expected = ["row_without_available_annotator", "fewer_annotators_than_requested", "batch_clipped", "repr_none_none", "repr_none_idx", "repr_none_bool", "repr_idx_bool", "repr_rows", "multi_cycle", "utilities_checked"]
+    probes_expected = ["row_without_available_annotator", "fewer_annotators_than_requested", "batch_clipped", "repr_none_none", "repr_none_idx", "repr_none_bool", "repr_idx_bool", "repr_rows", "multi_cycle", "utilities_checked", "napa_array", "napa_array_shorter_than_batch"]
     assumptions = [
         "availability is what the candidates/annotators arguments say (documented table); with both None: pairs whose label is missing",
         "termination is judged with a deterministic fuel of %d line events inside skactiveml per query" % FUEL,
-        "the annotators-per-sample clause is only judged for an integer request and only where the selected samples offer enough pairs at the requested number",
+        "the annotators-per-sample clause (integer or per-rank array request) is only judged where the selected samples offer enough pairs at the requested numbers, i.e. where the library does not have to raise the numbers to fill the batch",
     ]
     tiers = {"quick": {"runs": 4000, "wall_cap": 600, "chunk": 15}, "thorough": {"runs": 80000, "wall_cap": 3300, "chunk": 30}}
 
@@ -290,17 +290,22 @@ class C07Check(Check):
             if not ok:
                 break
             # ---- annotators per sample (weakest unambiguous form)
-            if subj == "SingleAnnotatorWrapper" and isinstance(napa, int):
+            if subj == "SingleAnnotatorWrapper":
+                # documented: an array gives the preferred number for the i-th sample of the inner strategy's ranking,
+                # its last entry for every later sample.  The pairs come in ranking order.
                 order = []
                 for p in pairs:
                     if p[0] not in order:
                         order.append(p[0])
+                pref = {s: (napa if isinstance(napa, int) else int(napa[min(i, len(napa) - 1)])) for i, s in enumerate(order)}
+                if not isinstance(napa, int):
+                    ctx.probe("napa_array_shorter_than_batch" if len(napa) < len(order) else "napa_array")
                 cap = {s: int(A[row_of[s]].sum()) for s in order}
-                if sum(min(napa, cap[s]) for s in order) >= len(pairs):
+                if sum(min(pref[s], cap[s]) for s in order) >= len(pairs):
                     for s in order[:-1]:
                         got = sum(1 for p in pairs if p[0] == s)
-                        if got != min(napa, cap[s]):
-                            ctx.violate("annotators-per-sample", subj, f"cycle {t}: sample {s} received {got} annotators, min(requested={napa}, available={cap[s]}) expected; pairs {pairs}", cond)
+                        if got != min(pref[s], cap[s]):
+                            ctx.violate("annotators-per-sample", subj, f"cycle {t}: sample {s} received {got} annotators, min(requested={pref[s]}, available={cap[s]}) expected (n_annotators_per_sample={napa}); pairs {pairs}", cond)
                             ok = False
                             break
             if not ok:
